@@ -296,6 +296,8 @@ impl EntityIndex {
         }
 
         // Slow path: acquire write locks
+        #[cfg(neumann_verif)]
+        crate::verif::yield_point("index.get_or_create.after_miss", key);
         let mut vocab = self.vocabulary.write();
         let mut reverse = self.reverse.write();
 
